@@ -39,6 +39,13 @@ Theorem refines_list :
 Proof. exact step_refines. Qed.
 Print Assumptions refines_list.
 
+(* ... and over whole histories: the contents after every step are those of the built-in list *)
+Theorem refines_list_on_histories :
+  forall (vld : Z -> option Z) (ops : list op) (l : list Z),
+    map (fun p => o_after (snd p)) (run (tl_step vld) l ops) = pylist_run vld l ops.
+Proof. exact run_refines_pylist. Qed.
+Print Assumptions refines_list_on_histories.
+
 Theorem failing_op_untouched :
   forall (vld : Z -> option Z) (l : list Z) (o : op) (e : exn),
     o_out (tl_step vld l o) = Raise e -> o_after (tl_step vld l o) = l /\ o_events (tl_step vld l o) = [].
